@@ -109,4 +109,28 @@ def run(tier):
     suite.identity('circuit.pure_vs_mixed', pure.eval(mixed=True).array, (t.conjugate() @ t).array, angle=phi,
                    functions=['quantum.circuit.Circuit.eval', 'quantum.cqmap.CQMap.pure'],
                    what='evaluating a pure circuit as a CQ map gives the doubled map of its pure evaluation')
+    # circuits in which bits and qubits only meet on inner layers, and batches / sums of circuits: the default evaluation
+    # of a circuit mixing bits and qubits is the classical-quantum one, also when several circuits are evaluated together
+    with suite.guard('mixed by inner layers, batches and sums', ['quantum.circuit.Circuit.eval', 'quantum.circuit.Circuit.is_mixed']):
+        inner = Bits(1) @ gates.Ket(0) >> Id(bit) @ Rx(phi) >> Id(bit) @ gates.Bra(1)
+        suite.fact('is_mixed[bits beside qubits on an inner layer]', bool(inner.is_mixed), functions=['quantum.circuit.Circuit.is_mixed'])
+        e_def, e_mix = inner.eval(), inner.eval(mixed=True)
+        suite.fact('eval.default_is_mixed.type', type(e_def).__name__ == 'CQMap' and (e_def.dom, e_def.cod) == (e_mix.dom, e_mix.cod),
+                   functions=['quantum.circuit.Circuit.eval'], what='default evaluation of a circuit mixing bits and qubits is a CQMap (got %s)' % type(e_def).__name__)
+        suite.identity('eval.default_is_mixed', numpy.array(e_def.array, dtype=object).flatten(), cqsim.cq_array(inner, matrix_of, symbolic=True).flatten(),
+                       angle=phi, functions=['quantum.circuit.Circuit.eval'], what='... equal to the textbook map (squared magnitudes)')
+        pure_closed = gates.Ket(0) >> Rx(phi) >> gates.Bra(1)
+        mixed_closed = gates.Ket(0) >> Rx(phi) >> Measure() >> Discard(bit)
+        single = [c_.eval(mixed=True) for c_ in (pure_closed, mixed_closed, pure)]
+        batch = pure_closed.eval(mixed_closed, pure, mixed=True)
+        suite.fact('eval.batch.kinds', [type(t_).__name__ for t_ in batch] == [type(t_).__name__ for t_ in single],
+                   functions=['quantum.circuit.Circuit.eval'], what='every circuit of a batch evaluated with mixed=True gives a CQMap')
+        for k_, (b_, s_) in enumerate(zip(batch, single)):
+            if numpy.size(numpy.array(b_.array, dtype=object)) == numpy.size(numpy.array(s_.array, dtype=object)):
+                suite.identity('eval.batch[%d]' % k_, numpy.array(b_.array, dtype=object).flatten(), numpy.array(s_.array, dtype=object).flatten(),
+                               angle=phi, functions=['quantum.circuit.Circuit.eval'], what='batch evaluation = one by one')
+        total_ = (pure_closed + mixed_closed).eval()
+        want_ = numpy.array(pure_closed.eval(mixed=True).array, dtype=object).flatten() + numpy.array(mixed_closed.eval(mixed=True).array, dtype=object).flatten()
+        suite.identity('eval.sum[pure + mixed closed circuits]', numpy.array(getattr(total_, 'array', total_), dtype=object).flatten(), want_,
+                       angle=phi, functions=['quantum.circuit.Sum.eval'], what='a sum with a mixed term adds the squared magnitude of its pure terms')
     return suite.result()
